@@ -106,6 +106,18 @@ def check(ctx):
     nep = 1500 if ctx.thorough() else 300
     episodes = C.load_corpus(ID) + [gen_episode(ctx.rng, ctx.thorough()) for _ in range(nep)]
     bad = d.check(episodes, oracle=oracle, label="acct")
+    # waves of requests finishing together, then quiescence: real gauge and published gauge at zero,
+    # accounting consistent (a search over schedules; the conservation theorems carry the claim)
+    from . import c12
+    overlay = C.make_overlay(ctx, clock_pkgs=[], harness_pkgs=["cmd/helios"], hmap={"cmd/helios": "helios"}, tag="gauge")
+    hel = C.go_test_build(ctx, "cmd/helios", overlay, name="helios")
+    env = {"VERIF_GAUGE_ROUNDS": str(12000 if ctx.thorough() else 1200)}
+    rc, out = c12.run_workload(ctx, hel, "TestVerifGauge", env, timeout=600)
+    cls = c12.classify(rc, out)
+    if cls:
+        C.violation(ctx, "concurrent-" + cls[0], {"what": "requests finishing together, then idle: " + cls[0],
+                                                  "test": "TestVerifGauge", "env": env, "report": cls[1]})
+    ctx.cov["gauge_rounds"] = int(env["VERIF_GAUGE_ROUNDS"])
     kinds = {}
     nontriv = set()
     if bad == 0:
